@@ -1,7 +1,201 @@
-(* C05 — placeholder while the model is being validated; replaced by the theorem file. *)
-From Coq Require Import ZArith List Bool.
-From V Require Import Base.Tree Base.Bytes C04.Model C05.Layout.
+(* C05 — data type wire encodings match the TDS 5.0 layouts (value level).  Property theorems only.
+   layout_enc (C05/Layout.v) is the reference written from the layout descriptions on top of the reference calendar
+   (C04/RefCalendar.v); enc_value / dec_value / jdn / time_to_us / us_to_time are the model of the Go code, compared
+   with the implementation on every run. *)
+From Coq Require Import ZArith List Bool Lia.
+Import ListNotations.
+From V Require Import Base.Tree Base.Bytes Gen.GenC04 C04.GoInt C04.Calendar C04.Utf16 C04.Model C04.Exchange
+  C04.RefCalendar C04.Spec C04.RefCalFacts C04.CalFacts C04.CalSweep C04.ProofsScalar C04.ProofsUnitext C04.ProofsTemporal
+  C05.Layout C05.Spec C05.Proofs C05.ProofsSpec.
 Open Scope Z_scope.
-Example C05_placeholder : layout_enc 48 (VInt U8 7) 1 = Some (7 :: nil).
-Proof. vm_compute. reflexivity. Qed.
-Print Assumptions C05_placeholder.
+
+(* (0) the reference itself: a little-endian word has byte i = floor(x / 256^i) mod 256 (two's complement); the numeric
+   magnitude denotes the number and has no leading zero byte; the reference day number is the number of next_day steps *)
+Theorem C05_le_word_byte : forall n x i, (i < n)%nat -> nth i (le_word n x) 0 = (x / 256 ^ Z.of_nat i) mod 256.
+Proof. exact le_word_byte. Qed.
+Theorem C05_be_mag_spec : forall m, 0 <= m -> be_of_bytes (be_mag m) = m /\ (be_mag m = [] \/ hd 0 (be_mag m) <> 0).
+Proof. exact be_mag_spec. Qed.
+Theorem C05_ref_index_is_walk : forall n, ref_index (walk n (1, 1, 1)) = Z.of_nat n /\ valid_date (walk n (1, 1, 1)) = true.
+Proof. exact ref_index_walk. Qed.
+
+(* (1) integers: fixed types with their Go type, INTN/UINTN with every width: little-endian two's complement *)
+Theorem C05_int_layout : forall t k x len, (fixed_int_kind t = Some k \/ intn_kind t k) -> ik_range k x = true ->
+  exists bs, layout_enc t (VInt k x) len = Some bs /\ enc_value t (VInt k x) len = Ok bs /\ dec_value t bs = Ok (VInt k x).
+Proof. exact int_layout_roundtrip. Qed.
+
+(* (2) floats: the IEEE bit pattern, little-endian *)
+Theorem C05_float_layout : forall t w bits len,
+  ((t = t_FLT4 \/ t = t_FLTN) /\ w = 32 /\ 0 <= bits < 2 ^ 32) \/
+  ((t = t_FLT8 \/ t = t_FLTN) /\ w = 64 /\ 0 <= bits < 2 ^ 64) ->
+  exists bs, layout_enc t (VFlt w bits) len = Some bs /\ enc_value t (VFlt w bits) len = Ok bs /\ dec_value t bs = Ok (VFlt w bits).
+Proof. exact flt_layout_roundtrip. Qed.
+
+(* (3) money: high word then low word of the 1/10000 count (8 bytes), one word (4 bytes) *)
+Theorem C05_money_layout : forall t p s x, (t = t_MONEY \/ t = t_MONEYN) -> - 2 ^ 63 <= x < 2 ^ 63 ->
+  exists bs, layout_enc t (VDec p s (Some x)) 8 = Some bs /\ enc_value t (VDec p s (Some x)) 8 = Ok bs /\
+             dec_value t bs = Ok (VDec 20 4 (Some x)).
+Proof. exact money_layout_roundtrip. Qed.
+Theorem C05_shortmoney_layout : forall t p s x, (t = t_SHORTMONEY \/ t = t_MONEYN) -> - 2 ^ 31 <= x < 2 ^ 31 ->
+  exists bs, layout_enc t (VDec p s (Some x)) 4 = Some bs /\ enc_value t (VDec p s (Some x)) 4 = Ok bs /\
+             dec_value t bs = Ok (VDec 10 4 (Some x)).
+Proof. exact shortmoney_layout_roundtrip. Qed.
+
+(* (4) numeric/decimal: sign byte + big-endian magnitude, every integer *)
+Theorem C05_numeric_layout : forall t p s x len, (t = t_DECN \/ t = t_NUMN) ->
+  exists bs, layout_enc t (VDec p s (Some x)) len = Some bs /\ enc_value t (VDec p s (Some x)) len = Ok bs /\
+             dec_value t bs = Ok (VDec 18 0 (Some x)).
+Proof. exact numeric_layout_roundtrip. Qed.
+
+(* (5) unitext: UTF-16LE, all scalar values *)
+Theorem C05_unitext_layout : forall cps len, cps <> [] -> forallb is_scalar cps = true -> last_nonzero cps = true ->
+  layout_enc t_UNITEXT (VText cps) len = Some (utf16le cps) /\
+  enc_value t_UNITEXT (VText cps) len = Ok (utf16le cps) /\ dec_value t_UNITEXT (utf16le cps) = Ok (VText cps).
+Proof. exact unitext_layout_roundtrip. Qed.
+
+(* (6) character / binary: the bytes themselves *)
+Theorem C05_char_binary_layout : forall t bs len, bs <> [] ->
+  (In t char_types -> layout_enc t (VStr bs) len = Some bs /\ enc_value t (VStr bs) len = Ok bs /\ dec_value t bs = Ok (VStr bs)) /\
+  (In t bin_types -> layout_enc t (VBytes bs) len = Some bs /\ enc_value t (VBytes bs) len = Ok bs /\ dec_value t bs = Ok (VBytes bs)).
+Proof.
+  intros t bs len Hne. split; intros Ht.
+  - destruct (char_roundtrip t bs len Ht Hne) as [E D]. split; [reflexivity|split; assumption].
+  - destruct (binary_roundtrip t bs len Ht Hne) as [E D]. split; [reflexivity|split; assumption].
+Qed.
+
+(* (7) dates: int32 days since 1900-01-01 of the reference calendar, every day of the years 1..9999 *)
+Theorem C05_date_layout : forall t tm, (t = t_DATE \/ t = t_DATEN) -> valid_time tm = true -> 1 <= cy tm <= 9999 ->
+  exists bs, layout_enc t (VTime tm) 4 = Some bs /\ enc_value t (VTime tm) 4 = Ok bs /\
+             dec_value t bs = Ok (VTime (CT (cy tm) (cmo tm) (cd tm) 0 0 0 0)).
+Proof.
+  intros t tm Ht V Hy. destruct (date_roundtrip t tm Ht V ltac:(lia)) as [E D].
+  eexists. split; [apply date_layout; exact Ht|]. split; assumption.
+Qed.
+
+(* (8) datetime: int32 days + uint32 1/300 s ticks (nearest tick, carried into the next day when it is a whole day);
+   the reference bytes decode to a valid instant within a tick, exactly when on a tick *)
+Theorem C05_datetime_layout : forall t tm, (t = t_DATETIME \/ t = t_DATETIMEN) -> valid_time tm = true -> 1 <= cy tm <= 9999 ->
+  exists bs tm', layout_enc t (VTime tm) 8 = Some bs /\ enc_value t (VTime tm) 8 = Ok bs /\
+                 dec_value t bs = Ok (VTime tm') /\ valid_time tm' = true /\
+                 300 * Z.abs (abs_ns tm' - abs_ns tm) < 1000000000 /\ (on_tick (tod_ns tm) = true -> tm' = tm).
+Proof.
+  intros t tm Ht V Hy. destruct (datetime_roundtrip t tm Ht V Hy) as [E [L [tm' [D [V' [W O]]]]]].
+  exists (datetime_bytes tm), tm'. split; [apply datetime_layout; assumption|].
+  repeat split; try assumption. unfold within_tick in W. apply Z.ltb_lt in W. exact W.
+Qed.
+
+(* (9) smalldatetime: uint16 days since 1900-01-01 + uint16 minutes *)
+Theorem C05_smalldatetime_layout : forall t tm, (t = t_SHORTDATE \/ t = t_DATETIMEN) -> valid_time tm = true -> 1 <= cy tm <= 9999 ->
+  0 <= ref_index (cy tm, cmo tm, cd tm) - ref_index_1900 <= 65535 ->
+  exists bs, layout_enc t (VTime tm) 4 = Some bs /\ enc_value t (VTime tm) 4 = Ok bs /\
+             dec_value t bs = Ok (VTime (CT (cy tm) (cmo tm) (cd tm) (ch tm) (cmi tm) 0 0)).
+Proof.
+  intros t tm Ht V Hy Hd. rewrite ref_index_1900_eq in Hd.
+  destruct (small_roundtrip t tm Ht V Hy Hd) as [E [L D]].
+  eexists. split; [apply small_layout; exact Ht|]. split; assumption.
+Qed.
+
+(* (10) time: uint32 1/300 s ticks since midnight, always below the count of a whole day *)
+Theorem C05_time_layout : forall t tm, (t = t_TIME \/ t = t_TIMEN) -> valid_time tm = true ->
+  exists bs, layout_enc t (VTime tm) 4 = Some bs /\ enc_value t (VTime tm) 4 = Ok bs /\
+             0 <= le_of_bytes bs < 25920000 /\ exists tm', dec_value t bs = Ok (VTime tm') /\ valid_time tm' = true.
+Proof.
+  intros t tm Ht V. destruct (time_roundtrip t tm Ht V) as [E [K [tm' [D [V' _]]]]].
+  eexists. split; [apply time_layout; assumption|]. split; [exact E|]. split.
+  - rewrite GoIntFacts.le_of_le_put_u. change (8 * Z.of_nat 4) with 32.
+    rewrite GoIntFacts.wrapu_small; [exact K|lia|change (2 ^ 32) with 4294967296; lia].
+  - exists tm'. split; assumption.
+Qed.
+
+(* (11) bigdatetime / bigtime: uint64 microseconds since 0000-01-01 / midnight *)
+Theorem C05_bigdatetime_layout : forall tm, valid_time tm = true -> 1 <= cy tm <= 9999 ->
+  exists bs, layout_enc t_BIGDATETIMEN (VTime tm) 8 = Some bs /\ enc_value t_BIGDATETIMEN (VTime tm) 8 = Ok bs /\
+    dec_value t_BIGDATETIMEN bs = Ok (VTime (CT (cy tm) (cmo tm) (cd tm) (ch tm) (cmi tm) (cs tm) (cns tm / 1000 * 1000))).
+Proof.
+  intros tm V Hy. destruct (bigdatetime_roundtrip tm V ltac:(lia)) as [E D].
+  eexists. split; [apply bigdatetime_layout|]. split; assumption.
+Qed.
+Theorem C05_bigtime_layout : forall tm, valid_time tm = true ->
+  exists bs, layout_enc t_BIGTIMEN (VTime tm) 8 = Some bs /\ enc_value t_BIGTIMEN (VTime tm) 8 = Ok bs /\
+    dec_value t_BIGTIMEN bs = Ok (VTime (CT 1 1 1 (ch tm) (cmi tm) (cs tm) (cns tm / 1000 * 1000))).
+Proof.
+  intros tm V. destruct (bigtime_roundtrip tm V) as [E D].
+  eexists. split; [apply bigtime_layout|]. split; assumption.
+Qed.
+
+(* (12) the calendar helpers agree with the reference calendar for every day of the years 1..9999 (10000):
+   the Julian-day expression counts days like the reference; TimeToMicroseconds / DurationFromDateTime are the reference
+   microsecond count since 0000-01-01; MicrosecondsToTime inverts both *)
+Theorem C05_jdn_is_reference : forall y m d, 1 <= y <= 9999 -> 1 <= m <= 12 ->
+  jdn y m d - jdn 1 1 1 = ref_index (y, m, d) /\ jdn y m d - jdn 1900 1 1 = ref_index (y, m, d) - ref_index_1900.
+Proof.
+  intros y m d Hy Hm. rewrite (jdn_ref y m d) by lia.
+  change (jdn 1 1 1) with 1721426. change (jdn 1900 1 1) with 2415021. rewrite ref_index_1900_eq. lia.
+Qed.
+Theorem C05_time_to_microseconds : forall tm, valid_time tm = true -> 1 <= cy tm <= 9999 ->
+  time_to_us tm = ref_us tm /\ dur_from_datetime tm = ref_us tm.
+Proof. intros tm V Hy. split; [apply time_to_us_ref|apply dur_from_datetime_ref]; try assumption; lia. Qed.
+Theorem C05_microseconds_to_time : forall tm, valid_time tm = true -> 1 <= cy tm <= 9999 ->
+  us_to_time (ref_us tm) = CT (cy tm) (cmo tm) (cd tm) (ch tm) (cmi tm) (cs tm) (cns tm / 1000 * 1000) /\
+  us_to_time (time_to_us tm) = CT (cy tm) (cmo tm) (cd tm) (ch tm) (cmi tm) (cs tm) (cns tm / 1000 * 1000).
+Proof. intros tm V Hy. split; [apply us_to_time_ref|apply us_to_time_inverse]; try assumption; lia. Qed.
+(* the Fliegel / Van Flandern date of MicrosecondsToTime is right for EVERY year >= 1 *)
+Theorem C05_fliegel_all_years : forall y m d, 1 <= y -> 1 <= m <= 12 -> 1 <= d <= month_len y m ->
+  fliegel_date (ref_index (y, m, d) + 366 - 693961) = (y, m, d).
+Proof. exact fliegel_ref. Qed.
+
+(* (13) summary: on the WHOLE domain of the property (C04.Spec.in_domain) the model satisfies the executable layout
+   specification that every run applies to the implementation's output: the produced bytes are the reference layout, the
+   reference bytes decode to the value (exact, or to the tick) and the decoded value has the same reference layout. *)
+Theorem C05_model_meets_layout : forall t len v, in_domain t v len = true ->
+  exists lb, layout_enc t v len = Some lb /\
+    layout_ok t len v (TL [TB lb]) (enc_value t v len) (tree_of_outcome tree_of_value (dec_value t lb)) = true.
+Proof. exact model_meets_layout. Qed.
+
+(* (14) documented vectors *)
+Example C05_vec_1753 : layout_enc t_DATETIME (VTime (CT 1753 1 1 0 0 0 0)) 8 = Some (le_word 4 (-53690) ++ le_word 4 0)
+  /\ enc_value t_DATETIME (VTime (CT 1753 1 1 0 0 0 0)) 8 = Ok [70; 46; 255; 255; 0; 0; 0; 0].
+Proof. split; vm_compute; reflexivity. Qed.
+Example C05_vec_9999 : layout_enc t_DATE (VTime (CT 9999 12 31 0 0 0 0)) 4 = Some (le_word 4 2958463)
+  /\ enc_value t_DATE (VTime (CT 9999 12 31 0 0 0 0)) 4 = Ok [127; 36; 45; 0].
+Proof. split; vm_compute; reflexivity. Qed.
+Example C05_vec_smalldatetime_max : layout_enc t_SHORTDATE (VTime (CT 2079 6 6 23 59 0 0)) 4 = Some [255; 255; 159; 5]
+  /\ enc_value t_SHORTDATE (VTime (CT 2079 6 6 23 59 0 0)) 4 = Ok [255; 255; 159; 5]
+  /\ ref_index (2079, 6, 6) - ref_index_1900 = 65535.
+Proof. repeat split; vm_compute; reflexivity. Qed.
+Example C05_vec_money_max : enc_value t_MONEY (VDec 20 4 (Some (2 ^ 63 - 1))) 8 = Ok [255; 255; 255; 127; 255; 255; 255; 255]
+  /\ layout_enc t_MONEY (VDec 20 4 (Some (2 ^ 63 - 1))) 8 = Some [255; 255; 255; 127; 255; 255; 255; 255].
+Proof. split; vm_compute; reflexivity. Qed.
+Example C05_vec_bigdatetime_0001 : enc_value t_BIGDATETIMEN (VTime (CT 1 1 1 0 0 0 0)) 8 = Ok (le_word 8 31622400000000)
+  /\ ref_us (CT 1 1 1 0 0 0 0) = 31622400000000 /\ time_to_us (CT 1 1 1 0 0 0 0) = 31622400000000.
+Proof. repeat split; vm_compute; reflexivity. Qed.
+Example C05_vec_unitext_abc : enc_value t_UNITEXT (VText [97; 98; 99]) 6 = Ok [97; 0; 98; 0; 99; 0]
+  /\ layout_enc t_UNITEXT (VText [97; 98; 99]) 6 = Some [97; 0; 98; 0; 99; 0].
+Proof. split; vm_compute; reflexivity. Qed.
+Example C05_vec_numeric : layout_enc t_NUMN (VDec 5 2 (Some (-12345))) 0 = Some [1; 48; 57]
+  /\ enc_value t_NUMN (VDec 5 2 (Some (-12345))) 0 = Ok [1; 48; 57] /\ enc_value t_DECN (VDec 5 2 (Some 0)) 0 = Ok [0].
+Proof. repeat split; vm_compute; reflexivity. Qed.
+Example C05_vec_time_last_tick : layout_enc t_TIME (VTime (CT 1 1 1 23 59 59 999000000)) 4 = Some (le_word 4 25919999)
+  /\ layout_enc t_DATETIME (VTime (CT 1999 12 31 23 59 59 999000000)) 8 = Some (le_word 4 36524 ++ le_word 4 0).
+Proof. split; vm_compute; reflexivity. Qed.
+
+Print Assumptions C05_le_word_byte.
+Print Assumptions C05_be_mag_spec.
+Print Assumptions C05_ref_index_is_walk.
+Print Assumptions C05_int_layout.
+Print Assumptions C05_float_layout.
+Print Assumptions C05_money_layout.
+Print Assumptions C05_shortmoney_layout.
+Print Assumptions C05_numeric_layout.
+Print Assumptions C05_unitext_layout.
+Print Assumptions C05_char_binary_layout.
+Print Assumptions C05_date_layout.
+Print Assumptions C05_datetime_layout.
+Print Assumptions C05_smalldatetime_layout.
+Print Assumptions C05_time_layout.
+Print Assumptions C05_bigdatetime_layout.
+Print Assumptions C05_bigtime_layout.
+Print Assumptions C05_jdn_is_reference.
+Print Assumptions C05_time_to_microseconds.
+Print Assumptions C05_microseconds_to_time.
+Print Assumptions C05_fliegel_all_years.
+Print Assumptions C05_model_meets_layout.
